@@ -14,7 +14,7 @@ const cpState = "kvdb/cachedproducer.cacheState"
 
 func init() {
 	register("C27", "other", "T16a SiblingAgreement (constructors initialise every map written), T1 LockSet, T7 Pairing, T4 GuardedBy (normalised counter tests)",
-		"Decides the reference-counting shape: both constructors (Wrap, WrapAll) initialise every map of the shared cache state that openDB writes into (a missing one makes the first open panic); the three maps are only touched under the state mutex; every path of openDB that returns a store increments the reference counter exactly once (paths taken per outcome of the cache lookup) and returns the store kept in the cache; the close function — with the counter logic inline or in one helper whose error and last-reference results are followed — returns an error when the counter is <= 0, forgets the entry and calls the real close exactly on counter == 1 (one test or two bounds), and stores back counter - 1 otherwise; the drop function tests-and-clears the not-dropped mark under the lock and calls the real drop only on the marked edge. History equivalence with a reference-counting model is not decided.",
+		"Decides the reference-counting shape: both constructors (Wrap, WrapAll) initialise every map of the shared cache state that openDB writes into (a missing one makes the first open panic); the three maps are only touched under the state mutex; every path of openDB that returns a store increments the reference counter exactly once (paths taken per outcome of the cache lookup; an update written in a module function is counted through its summary: never / always / exactly when a boolean result is true) and returns the store kept in the cache; the close function — with the counter logic inline or in one helper whose error and last-reference results are followed — returns an error when the counter is <= 0, forgets the entry and calls the real close exactly on counter == 1 (one test or two bounds), and stores back counter - 1 otherwise; the drop function — with the test-and-clear inline or in a helper whose boolean result it tests — reads and clears the not-dropped mark in one critical section and calls the real drop only on the marked edge. History equivalence with a reference-counting model is not decided.",
 		[]string{"the wrapped producer's OpenDB/Close/Drop are opaque", "two concurrent first opens of one name are outside this property (histories are sequential)"},
 		runC27)
 }
@@ -132,11 +132,12 @@ func runC27(c *core.Ctx) {
 	open := c.Fn("kvdb/cachedproducer.openDB")
 	nameParam := open.ParamNamed("name")
 
-	isRefInc := func(f *core.FuncInfo, a assignment) bool {
-		// refCounter[k]++, refCounter[k] += 1, refCounter[k] = refCounter[k] + 1
+	// refCounter[k]++, refCounter[k] += 1, refCounter[k] = refCounter[k] + 1 — written in openDB or in a
+	// module function it calls (see c27Effect)
+	incEffect := c27NewEffect(opened, func(f *core.FuncInfo, a assignment) (ast.Expr, bool) {
 		ix, ok := ast.Unparen(a.LHS).(*ast.IndexExpr)
 		if !ok || fieldNameOf(f, ix.X) != refc {
-			return false
+			return nil, false
 		}
 		cell := func(e ast.Expr) string {
 			if jx, k := ast.Unparen(e).(*ast.IndexExpr); k && fieldNameOf(f, jx.X) == refc && varOf(f, jx.Index) != nil && varOf(f, jx.Index) == varOf(f, ix.Index) {
@@ -146,97 +147,84 @@ func runC27(c *core.Ctx) {
 		}
 		switch a.Tok {
 		case token.INC:
-			return true
+			return ix.Index, true
 		case token.ADD_ASSIGN:
-			return a.RHS != nil && core.IsConstInt(f.Info(), a.RHS, 1)
+			return ix.Index, a.RHS != nil && core.IsConstInt(f.Info(), a.RHS, 1)
 		case token.ASSIGN:
 			if a.RHS == nil {
-				return false
+				return nil, false
 			}
 			l := core.Linearize(f.Info(), a.RHS, cell)
 			k := l.Coef["cell"]
-			return len(l.Coef) == 1 && k != nil && k.Cmp(big.NewInt(1)) == 0 && l.C.Cmp(big.NewInt(1)) == 0
+			return ix.Index, len(l.Coef) == 1 && k != nil && k.Cmp(big.NewInt(1)) == 0 && l.C.Cmp(big.NewInt(1)) == 0
 		}
-		return false
-	}
+		return nil, false
+	})
+	// notDropped[k] = true
+	armEffect := c27NewEffect(opened, func(f *core.FuncInfo, a assignment) (ast.Expr, bool) {
+		ix, ok := ast.Unparen(a.LHS).(*ast.IndexExpr)
+		if !ok || fieldNameOf(f, ix.X) != notDropped || a.RHS == nil || !c26IsTrue(f, a.RHS) {
+			return nil, false
+		}
+		return ix.Index, true
+	})
+	isName := func(e ast.Expr) bool { return nameParam != nil && varOf(open, resolveLocal(open, e)) == nameParam }
 
 	c.Clause("C27.open", func() {
 		c.Need(nameParam != nil, "openDB has a name parameter")
-		var incs []core.Point
-		for _, a := range assignments(open) {
-			if isRefInc(open, a) {
-				incs = append(incs, a.Pt)
-			}
+		incs, bad := incEffect.sites(open, 2)
+		if bad != "" {
+			c.Undecided("open counted", "T7 Pairing", open.Pos(), "cannot tell on which paths openDB increments the reference counter: "+bad)
 		}
 		c.ExpectAtLeast("refCounter[name]++ sites in openDB", len(incs), 1)
+		for _, s := range incs {
+			for _, k := range s.keys {
+				c.Check(isName(k), "the counter of the opened name is incremented", "provenance", s.pos, "refCounter is indexed by openDB's name", "the open is counted for "+exprStr(k)+", not for the name being opened")
+			}
+		}
 		okRet := returnsWith(open, 0, func(e ast.Expr) bool { return !core.IsNil(open.Info(), e) })
 		c.ExpectAtLeast("store-returning exits of openDB", len(okRet), 1)
-		// paths are searched per outcome of the cache lookup (hit / miss), so that `if ok {count}; …; if ok
-		// {return}` is read like the nested form
-		scenarios := c27HitScenarios(open, opened)
-		isInc := core.PointSet(incs...)
+		// paths are searched per outcome of the cache lookup (hit / miss) — made in openDB or reported by
+		// the helper that makes it —, so that `if ok {count}; …; if ok {return}` is read like the nested form
+		scenarios := incEffect.scenarios(open, incs)
 		for _, rp := range okRet {
 			ok, wit := true, []core.Point(nil)
-			for _, infeasible := range scenarios {
-				if path, found := (core.PathQuery{F: open, From: open.Entry(), Target: core.PointSet(rp), Avoid: isInc, AvoidEdge: infeasible}).Find(); found && !isInc(rp) {
+			for _, sc := range scenarios {
+				isInc := core.PointSet(sc.active(incs)...)
+				if path, found := (core.PathQuery{F: open, From: open.Entry(), Target: core.PointSet(rp), Avoid: isInc, AvoidEdge: sc.infeasible}).Find(); found && !isInc(rp) {
 					ok, wit = false, path
 				}
 			}
 			c.Check(ok, "open counted", "T7 Pairing", posOf(rp), "every path returning a store increments refCounter[name]", "a store is returned without counting the open: "+open.DescribePath(wit))
 		}
 		twice := false
-		for _, a := range incs {
-			for _, infeasible := range scenarios {
-				if _, reach := (core.PathQuery{F: open, From: open.Entry(), Target: core.PointSet(a), AvoidEdge: infeasible}).Find(); !reach && a != open.Entry() {
-					continue // this update does not happen in the scenario
-				}
-				if _, found := (core.PathQuery{F: open, From: a, FromAfter: true, Target: isInc, AvoidEdge: infeasible}).Find(); found {
-					twice = true
-				}
+		for _, sc := range scenarios {
+			if fl := c27FlowOf(open, sc, incs); fl.feasible && fl.twice {
+				twice = true
 			}
 		}
 		c.Check(!twice, "open counted once", "T5 AtMostOnce", open.Pos(), "no path increments the counter twice", "a path increments refCounter twice for one open")
 		// the cached store is what is returned: on the hit edge the returned variable is the comma-ok result of opened[name];
-		// on the miss path the variable stored into opened[name] is the one returned
-		var storeAssign []assignment
-		for _, a := range assignments(open) {
-			if ix, ok := ast.Unparen(a.LHS).(*ast.IndexExpr); ok && fieldNameOf(open, ix.X) == opened {
-				storeAssign = append(storeAssign, a)
-			}
-		}
-		okCache, whyCache := len(storeAssign) == 1, "opened[name] is not assigned at exactly one place"
+		// on the miss path the variable stored into opened[name] is the one returned (the read and the store may
+		// each live in a helper: see c27CacheReads, c27Puts)
+		puts := c27Puts(open, opened, 2)
+		okCache, whyCache := len(puts) == 1, "opened[name] is not assigned at exactly one place"
 		if okCache {
-			st := storeAssign[0]
-			sv := varOf(open, st.RHS)
+			st := puts[0]
+			sv := varOf(open, st.val)
 			if sv == nil {
 				okCache, whyCache = false, "what is put into opened[name] is not a variable"
 			}
 			// variables read from the cache: v, ok := opened[name] / v := opened[name]
-			fromCache := map[*types.Var]bool{}
-			for _, a := range assignments(open) {
-				ix, k := ast.Unparen(a.RHS).(*ast.IndexExpr)
-				if !k || a.RHS == nil || fieldNameOf(open, ix.X) != opened {
-					continue
-				}
-				first := true
-				switch s := a.Stmt.(type) {
-				case *ast.AssignStmt:
-					first = a.LHS == s.Lhs[0]
-				case *ast.ValueSpec:
-					first = a.LHS == ast.Expr(s.Names[0])
-				}
-				if v := varOf(open, a.LHS); v != nil && first {
-					fromCache[v] = true
-				}
-			}
+			fromCache := c27CacheReads(open, opened, 2)
 			nAfter := 0
 			for _, rp := range okRet {
 				if !okCache {
 					break
 				}
 				rv := varOf(open, rp.Node().(*ast.ReturnStmt).Results[0])
-				_, hitPath := (core.PathQuery{F: open, From: open.Entry(), Target: core.PointSet(rp), Avoid: core.PointSet(st.Pt)}).Find()
-				missPath := open.CanReach(st.Pt, rp)
+				_, hitPath := (core.PathQuery{F: open, From: open.Entry(), Target: core.PointSet(rp), Avoid: core.PointSet(st.pt)}).Find()
+				missPath := open.CanReach(st.pt, rp)
 				switch {
 				case rv == nil:
 					okCache, whyCache = false, "a successful exit returns something other than a variable holding the store"
@@ -248,7 +236,7 @@ func runC27(c *core.Ctx) {
 				if missPath && okCache {
 					nAfter++
 					for _, d := range assignsToVar(open, sv) {
-						if open.CanReach(st.Pt, d.Pt) && open.CanReach(d.Pt, rp) {
+						if open.CanReach(st.pt, d.Pt) && open.CanReach(d.Pt, rp) {
 							okCache, whyCache = false, "the variable put into opened[name] is replaced before it is returned"
 						}
 					}
@@ -260,10 +248,19 @@ func runC27(c *core.Ctx) {
 		}
 		c.Check(okCache, "new store is cached and returned", "provenance", open.Pos(), "the wrapped store is put into opened[name] and the same value is returned; a cache hit returns what was read from opened[name]", "the store returned by openDB is not the one kept in opened[name]: "+whyCache)
 		// notDropped[name] = true on every open
+		// (sites that certainly set the mark: an assignment, or a helper every path of which makes it)
 		var nd []core.Point
-		for _, a := range assignments(open) {
-			if ix, ok := ast.Unparen(a.LHS).(*ast.IndexExpr); ok && fieldNameOf(open, ix.X) == notDropped && a.RHS != nil && c26IsTrue(open, a.RHS) {
-				nd = append(nd, a.Pt)
+		arms, _ := armEffect.sites(open, 2)
+		for _, s := range arms {
+			if s.cond != nil {
+				continue
+			}
+			named := true
+			for _, k := range s.keys {
+				named = named && isName(k)
+			}
+			if named {
+				nd = append(nd, s.pt)
 			}
 		}
 		okND := len(nd) > 0
@@ -347,57 +344,6 @@ func runC27(c *core.Ctx) {
 
 	c.Clause("C27.drop", func() {
 		c.Need(dropFn != nil, "StoreWithFn literal with DropFn closure in the cachedproducer package")
-		f := dropFn
-		rd := f.CallsMatching(isReal("kvdb.Droper.Drop", "kvdb.Store.Drop"))
-		c.Check(len(rd) == 1, "real drop called at one site", "T6 WhoMayCall", f.Pos(), "exactly one call of the real drop", fmt.Sprintf("%d calls of the real drop in DropFn", len(rd)))
-		if len(rd) != 1 {
-			return
-		}
-		var flag *types.Var
-		okG, _ := f.GuardedBy(rd[0].Pt, func(ft core.Fact) bool {
-			cm, ok := core.NormCmp(ft)
-			if ok && cm.R == nil && cm.Op == token.EQL {
-				if v := varOf(f, cm.L); v != nil {
-					flag = v
-					return true
-				}
-			}
-			return false
-		})
-		c.Check(okG && flag != nil, "real drop is conditional on the mark", "T4 GuardedBy", rd[0].Pos(), "the real drop is reached only on the true edge of a flag", "the real drop is called unconditionally: it can run more than once per open")
-		if flag == nil {
-			return
-		}
-		// the flag's only non-false definition is notDropped[name], and the mark is cleared after reading it, before unlock
-		var read []assignment
-		for _, a := range assignsToVar(f, flag) {
-			if a.RHS == nil || isIdentNamed(a.RHS, "false") {
-				continue
-			}
-			ix, ok := ast.Unparen(a.RHS).(*ast.IndexExpr)
-			if ok && fieldNameOf(f, ix.X) == notDropped {
-				read = append(read, a)
-			} else {
-				c.Fail("drop flag has an unexpected definition", "provenance", a.Stmt.Pos(), "the flag guarding the real drop is not read from notDropped[name]")
-			}
-		}
-		c.Check(len(read) == 1, "drop flag is the not-dropped mark", "provenance", f.Pos(), "toDrop = notDropped[name]", "the drop flag is not read from notDropped[name]")
-		if len(read) == 1 {
-			del := core.Points(f.CallsMatching(func(cs *core.CallSite) bool {
-				return cs.Name == "builtin.delete" && len(cs.Call.Args) > 0 && fieldNameOf(f, cs.Call.Args[0]) == notDropped
-			}))
-			unl := core.Points(f.CallsTo("sync.Mutex.Unlock"))
-			ok1, _ := f.MustPassAfter(read[0].Pt, del)
-			// no unlock between the read and the clear (test-and-clear is one critical section)
-			ok2 := len(del) > 0
-			for _, d := range del {
-				if _, found := (core.PathQuery{F: f, From: read[0].Pt, FromAfter: true, Target: core.PointSet(d), Avoid: nil}).Find(); found {
-					if ok, _ := f.MustPassBetween(read[0].Pt, unl, d); ok && len(unl) > 0 {
-						ok2 = false // every path passes an unlock in between
-					}
-				}
-			}
-			c.Check(ok1 && ok2, "test-and-clear of the mark", "T7 Pairing", read[0].Stmt.Pos(), "the mark is deleted after it is read, within the same critical section", "the not-dropped mark is not cleared atomically with its test: two drops can both run the real drop")
-		}
+		c27Drop(c, dropFn, isReal("kvdb.Droper.Drop", "kvdb.Store.Drop"), notDropped)
 	})
 }
